@@ -256,7 +256,7 @@ def run_world(plan, keep=False):
                         elif kind == 'OBS_BASIC' or 'exc:basic' in sec:
                             wanted = [('basic', op[1])]
                         elif kind == 'OBS_MISC' or 'exc:misc' in sec:
-                            wanted = [('misc',)]
+                            wanted = [('misc', op[1] if len(op) > 1 else 0)]
                         else:
                             wanted = []
                         ora = oracle_api(ti, point, wanted)
@@ -289,7 +289,7 @@ def run_world(plan, keep=False):
                 base, inc, steps = op[1], op[2], op[3]
                 f0, _ = W.base_f(base)
                 if sec['outcome'] != 'ok':
-                    ora = oracle_cli(W.sweep_argv(base, inc, steps), t.get('npulses', 10))
+                    ora = oracle_cli(W.sweep_argv(base, inc, steps, op[4] if len(op) > 4 else 0), t.get('npulses', 10))
                     evaluations += 1
                     trivial += 1
                     if ora['outcome'] != sec['outcome']:
